@@ -96,6 +96,19 @@ func checkC20(p *Prog, r *Report) {
 			okStore := sfct == "nodeManagementUseCaseData" && (valueDerivesFrom(args[1], copyCall) || strings.Contains(Path(args[1]), "DataCopy"))
 			r.Check("R1", base+"|stores-copy", okStore, p.InstrPos(setCall), fmt.Sprintf("SetData(%s, %s)", sfct, Path(args[1])))
 			secs := ls.CommonSections(copyCall, setCall)
+			// a read lock does not exclude another read-modify-write cycle holding the same read lock
+			var wsecs []string
+			for _, sname := range secs {
+				if h, ok := ls.At(copyCall)[sname]; ok && !h.Read {
+					if h2, ok := ls.At(setCall)[sname]; ok && !h2.Read {
+						wsecs = append(wsecs, sname)
+					}
+				}
+			}
+			if len(wsecs) < len(secs) {
+				r.Fail("R1", base+"|write-mode", p.InstrPos(setCall), fmt.Sprintf("the cycle holds %v only in read mode: two cycles can overlap and one update is lost", secs))
+			}
+			secs = wsecs
 			r.Check("R1", base+"|rmw", len(secs) > 0 && instrDominates(copyCall, setCall), p.InstrPos(setCall), fmt.Sprintf("copy at %s and store at %s share the critical sections %v", p.InstrPos(copyCall), p.InstrPos(setCall), secs))
 			for _, s := range secs {
 				commonLocks[s]++
@@ -145,6 +158,7 @@ func checkC20(p *Prog, r *Report) {
 	r.Check("R2", "summary:model.UseCaseInformationDataType.Add", found, "", "recognised as writing elements of its receiver's UseCaseSupport list (callers must hand it a private list)")
 
 	sliceEqualityLint(p, r, "R6")
+	writeBackIndexRule(p, r, "R7")
 	r.Rule("R3", "RemoveEntity removes all use cases of the removed entity, unconditionally")
 	dli := p.LookupIface("api", "DeviceLocalInterface")
 	for _, fn := range p.ImplsOf(dli, "RemoveEntity") {
@@ -359,4 +373,61 @@ func sliceEqualityLint(p *Prog, r *Report, rule string) {
 		r.Check(rule, fmt.Sprintf("%s|address-comparison#%d", p.StableName(idx), nCmp), okPrim, p.InstrPos(c), "addresses compared by "+name)
 	})
 	r.Floor(rule, "address comparisons in the use-case look-up", nCmp, 2)
+}
+
+// writeBackIndexRule: copy-modify-write-back of one list element. When an
+// element is copied out of a list at index i, modified, and stored into the
+// list (or a shallow clone of it) again, the store uses the same index value.
+func writeBackIndexRule(p *Prog, r *Report, rule string) {
+	r.Rule(rule, "an element copied out of a list at index i and stored back into that list or a shallow clone of it after modification is stored at the same index i (another index overwrites a different entry — e.g. another entity's use cases — and leaves the intended one unchanged)")
+	n := 0
+	for _, fn := range p.RepoFns("model", "spine") {
+		idx := 0
+		for _, b := range fn.Blocks {
+			for _, ins := range b.Instrs {
+				st, ok := ins.(*ssa.Store)
+				if !ok {
+					continue
+				}
+				ia2, ok := st.Addr.(*ssa.IndexAddr)
+				if !ok {
+					continue
+				}
+				// the stored value: load of a local copy whose only whole store is an element load
+				ld, ok := st.Val.(*ssa.UnOp)
+				if !ok {
+					continue
+				}
+				al, ok := ld.X.(*ssa.Alloc)
+				if !ok {
+					continue
+				}
+				sv := singleStore(al)
+				eld, ok := sv.(*ssa.UnOp)
+				if !ok {
+					continue
+				}
+				ia1, ok := eld.X.(*ssa.IndexAddr)
+				if !ok {
+					continue
+				}
+				// same list: the destination is the source itself or a shallow clone of (a load of) the same place
+				same := ia1.X == ia2.X
+				if !same {
+					for _, src := range shallowCloneSources(ia2.X, 0) {
+						if src == ia1.X || (Path(src) == Path(ia1.X) && !strings.HasPrefix(Path(src), "v:")) {
+							same = true
+						}
+					}
+				}
+				if !same {
+					continue
+				}
+				idx++
+				n++
+				r.Check(rule, fmt.Sprintf("%s|write-back#%d", FnName(originOf(fn)), idx), ia1.Index == ia2.Index, p.InstrPos(st), fmt.Sprintf("element read at index %s is stored back at index %s", Path(ia1.Index), Path(ia2.Index)))
+			}
+		}
+	}
+	r.Floor(rule, "copy-modify-write-back sites", n, 1)
 }
